@@ -27,18 +27,21 @@ type Announcement struct {
 func UnmarshalAnnouncements(data []byte) (announcements []Announcement, err error) {
 	buff := bytes.NewBuffer(data)
 
-	if l, cErr := cboring.ReadArrayLength(buff); cErr != nil {
+	l, cErr := cboring.ReadArrayLength(buff)
+	if cErr != nil {
 		err = cErr
 		return
-	} else {
-		announcements = make([]Announcement, l)
 	}
 
-	for i := 0; i < len(announcements); i++ {
-		if cErr := cboring.Unmarshal(&announcements[i], buff); cErr != nil {
+	// l is taken from the packet: let the slice grow with the announcements that are really there.
+	announcements = make([]Announcement, 0)
+	for i := uint64(0); i < l; i++ {
+		var announcement Announcement
+		if cErr := cboring.Unmarshal(&announcement, buff); cErr != nil {
 			err = fmt.Errorf("unmarshalling Announcement %d failed: %v", i, cErr)
 			return
 		}
+		announcements = append(announcements, announcement)
 	}
 
 	return
